@@ -193,6 +193,35 @@ def run(ctx):
         ctx.count('style:%s' % c.meta['style'])
         ctx.count('status:' + str(impl[c.id].get('status')) + ('/' + str(impl[c.id].get('class')) if impl[c.id].get('class') else ''))
         ctx.mark_nontrivial(sig(c.files, c.meta['kind'], c.g))
+    # inputs that only the real program reads: a malformed configuration file, a sub-command without its argument
+    from .. import core
+    binary = ctx.real()
+    files = {b'food.yaml': b'a:\n  calories: 1\n', b'log.yaml': b'2021/01/24:\n  a: 1\n'}
+    configs = [b'[Global', b'[Global]\nDateFormat', b'[Nope]\nx=1\n', b'[Global]\nNope=1\n', b'\x00\xff\xfe', b'[Global]\nNow=yesterday\n', b'[Resolver]\nMaxDepth=many\n',
+               b'[Global]\nDateFormat="unterminated\n', b'=\n', b'[Global]\n' + b'x' * 70000 + b'=1\n', b'[Resolver]\nMaxDepth=99999999999999999999\n']
+    n = 0
+    for cfgtext in configs:
+        for argv in (['reg'], ['stats'], ['--no-color', 'bal'], ['lint', 'log.yaml'], ['gen', 'markdown']):
+            for where in ('home', 'flag'):
+                fs = dict(files)
+                a = ['--today', '2021/01/28'] + argv
+                if where == 'flag':
+                    fs[b'my.cfg'] = cfgtext
+                    a = ['-c', 'my.cfg'] + a
+                rc, out, err = core.run_real_binary(binary, a, fs, home_config=cfgtext if where == 'home' else None)
+                n += 1
+                ctx.count('real-binary:config rc=%d' % rc)
+                if rc < 0 or b'goroutine ' in err or b'panic:' in err:
+                    ctx.problem('oracle', '`%s` with a malformed configuration file (%s) ends with status %d: %s' % (' '.join(argv), where, rc, err.decode('utf-8', 'replace')[:200]), None,
+                                {'config': cfgtext[:200].decode('utf-8', 'replace'), 'argv': a}, signature='panic:config')
+    for argv in (['lint'], ['report', 'element-total'], ['summary'], ['report'], ['csv'], ['gen'], ['reg', 'x', 'y'], ['lint', 'a', 'b'], ['summary', 'today', 'extra'], ['nosuch'], ['reg', '--nosuch'], ['--nosuch', 'reg'], []):
+        rc, out, err = core.run_real_binary(binary, ['--today', '2021/01/28'] + argv, files)
+        n += 1
+        ctx.count('real-binary:arguments rc=%d' % rc)
+        if rc < 0 or b'goroutine ' in err or b'panic:' in err:
+            ctx.problem('oracle', '`%s` (missing or surplus argument) ends with status %d: %s' % (' '.join(argv), rc, err.decode('utf-8', 'replace')[:200]), None, {'argv': argv}, signature='panic:arguments')
+    ctx.evaluations += n
+    ctx.notes.append('%d runs of the untagged binary with malformed configuration files and missing / surplus arguments' % n)
     c = cases[10]
     ctx.sample({'cmd': c.shell(), 'log_hex': c.files[b'log.yaml'][:120].hex(), 'book': c.files[b'food.yaml'].decode('utf-8', 'replace')[:200]})
 
